@@ -427,7 +427,10 @@ func (e *Engine) mapLoopProblems(fn *ssa.Function, r *ssa.Range, memo map[*ssa.F
 			if c, ok := in.(*ssa.Call); ok {
 				if callee := c.Call.StaticCallee(); callee != nil && callee.Pkg != nil {
 					p := callee.Pkg.Pkg.Path()
-					if p == "sort" || (p == "slices" && strings.HasPrefix(callee.Name(), "Sort")) {
+					// only a TOTAL order on the values makes the accumulation independent of the iteration order: sort.Strings /
+					// sort.Ints / slices.Sort; a comparator (sort.Slice, slices.SortFunc) may call distinct values equal and
+					// then keeps the order the map range produced (seed C06-10: a case-insensitive less)
+					if (p == "sort" && (callee.Name() == "Strings" || callee.Name() == "Ints" || callee.Name() == "Float64s")) || (p == "slices" && callee.Name() == "Sort") {
 						hasSort = true
 					}
 				}
